@@ -33,7 +33,8 @@ SMALL = (None, "a", {"kinds": [1]}, [], {"kinds": "x"}, 7)
 def _second_connection(loop, store):
     """a well-behaved client that subscribed before and stays connected"""
     q = loop.namespace().Queue()
-    cid = C.ClientID("other")
+    from nostr_relay import web as _web
+    cid = _web.ClientID("10.0.0.9")
     loop.run(store.subscribe(cid, "theirs", [{"kinds": [1]}], q, auth_token={}))
     return cid, q
 
@@ -46,13 +47,14 @@ def _second_connection(loop, store):
                    "number, null}, a from 32 JSON values (every type; event and filter objects with type-confused fields), b "
                    "from 6, n in 1..3 (all symbolic selectors), or the bare value a as the whole message; mode in {plain, "
                    "authentication enabled + throttle 2, rate limiter refusing the first message}; then a probe REQ and a "
-                   "disconnect, delivered when the relay is idle or (symbolic) all buffered in advance; a second connection holds a subscription")
-def ob_handler_survives(a: int, b: int, n: int, bare: bool, mode: int, eager: bool) -> str:
+                   "disconnect, delivered when the relay is idle or (symbolic) all buffered in advance; a second connection from the same address (its ClientID text may collide) holds a subscription")
+def ob_handler_survives(a: int, b: int, n: int, bare: bool, mode: int, eager: bool, collide: bool) -> str:
     """
     pre: 0 <= a < 16 and 0 <= b < len(SMALL) and 1 <= n <= 3
     pre: not bare or (n == 1 and b == 0)
     pre: n == 3 or b == 0
     pre: 0 <= mode < 3
+    pre: not collide or (mode == 0 and not eager)
     post: _.startswith("ok")
     """
     logging.disable(logging.CRITICAL)
@@ -60,7 +62,8 @@ def ob_handler_survives(a: int, b: int, n: int, bare: bool, mode: int, eager: bo
     auth_on = throttled = mode == 1
     limited = mode == 2
     loop = Loop()
-    C.install(loop)
+    # the REAL util.ClientID; both connections come from the same address and (symbolic) may draw the same random suffix
+    C.install(loop, tokens=["aaaa", "aaaa" if collide else "bbbb"])
     C.StubSub.n_stored = 1
     Config.subscription_limit = 32
     store = C.Store(loop, auth=C.StubAuth(enabled=auth_on, throttle=2 if throttled else 0, outcome="autherror"),
